@@ -167,6 +167,8 @@ impl MCOptimiser {
         let threshold: f64 = rng.gen();
 
         match new {
+            // A score which is not a number is not a valid score, so is never accepted
+            Some(new_score) if new_score.is_nan() => None,
             // New score is better, keep updated state
             Some(new_score) if new_score > old => Some(new_score),
             // When the score increases, there is a probability of accepting the new
